@@ -96,7 +96,8 @@ def run(ctx):
     ctx.assumptions = ASSUMPTIONS
     binary = build.build("bloch", "asan")
     n = ctx.n(800, 20000)
-    cases = [dict(profile="flags", index=i) for i in range(n)]
+    # every third program runs as two shots: all but the last shot execute with QASM logging off
+    cases = [dict(profile="flags", index=i, shots=(2 if i % 3 == 0 else 0)) for i in range(n)]
 
     def one(case):
         res = qlang.check_case(ctx, "C06", binary, case, report_props={"C06", "HARNESS"})
